@@ -191,7 +191,7 @@ func (c *specialCtx) parallel(n int, f func(i int, d *driver)) {
 			}
 			now := time.Now().UnixNano()
 			for w := range started {
-				if t0 := atomic.LoadInt64(&started[w]); t0 != 0 && now-t0 > int64(specialWatchdog) {
+				if t0 := atomic.LoadInt64(&started[w]); t0 != 0 && now-t0 > int64(scaled(specialWatchdog)) {
 					i := atomic.LoadInt64(&current[w])
 					c.violation("wedge", fmt.Sprintf("iteration %d of the %s check did not finish within %v (the implementation does not terminate on this input)", i, c.st.Profile, specialWatchdog),
 						map[string]any{"special": c.st.Profile, "iteration": i, "seed": c.seed})
@@ -266,7 +266,7 @@ func mouseBlockingBackend(c *specialCtx) {
 	_ = vt.Terminal().Resize(20, 5)
 	loopDone := vt.StartLoop()
 	_, _ = pw.Write([]byte("\x1b[?1000h\x1b[?1006h"))
-	for deadline := time.Now().Add(5 * time.Second); time.Now().Before(deadline); time.Sleep(time.Millisecond) {
+	for deadline := time.Now().Add(scaled(5 * time.Second)); time.Now().Before(deadline); time.Sleep(time.Millisecond) {
 		ready := false
 		vt.Terminal().WithLock(func() {
 			sn := vt.Snap()
@@ -292,7 +292,7 @@ func mouseBlockingBackend(c *specialCtx) {
 	}()
 	select {
 	case <-outDone:
-	case <-time.After(10 * time.Second):
+	case <-time.After(scaled(10 * time.Second)):
 		c.violation("mouse-report-blocks-loop", "a mouse report waiting in the backend's writer kept the read loop from consuming the application's output (terminal lock held across the write?)", nil)
 	}
 	buf := make([]byte, 64)
@@ -301,13 +301,13 @@ func mouseBlockingBackend(c *specialCtx) {
 	go func() { n, _ = rr.Read(buf); close(got1) }()
 	select {
 	case <-got1:
-	case <-time.After(5 * time.Second):
+	case <-time.After(scaled(5 * time.Second)):
 		c.violation("mouse-report", "blocking backend: no report arrived for a press in mode 1000", nil)
 		return
 	}
 	select {
 	case <-sent:
-	case <-time.After(5 * time.Second):
+	case <-time.After(scaled(5 * time.Second)):
 		c.violation("mouse-report-blocks-loop", "SendMouse did not return after its report had been read", nil)
 	}
 	if got := string(buf[:n]); got != "\x1b[<0;3;2M" && n > 0 {
@@ -317,7 +317,7 @@ func mouseBlockingBackend(c *specialCtx) {
 	rr.Close()
 	select {
 	case <-loopDone:
-	case <-time.After(5 * time.Second):
+	case <-time.After(scaled(5 * time.Second)):
 	}
 	c.count("blocking-backend")
 }
@@ -728,7 +728,7 @@ func finalOf(mode int, grid bool, w, h int, chunks [][]byte) (lines []string, re
 		im.be.script = append(im.be.script, chunk{data: append([]byte(nil), ch...)})
 		total += len(ch)
 	}
-	for i := 0; i < total+8; i++ {
+	for i := 0; i < total+len(chunks)+8; i++ {
 		err, p := im.vt.Step()
 		if p != "" {
 			return nil, nil, nil, p, nil
@@ -896,6 +896,25 @@ func specialSegmentation(c *specialCtx) {
 				}
 				segs = append(segs, cutAt(data, cuts))
 			}
+		}
+		if i%3 == 1 {
+			// a read that returns no bytes and no error is a segment too: the same segmentations
+			// with such reads at the cuts (at the only cut; at a third of the cuts of a multi-cut)
+			var extra [][][]byte
+			for _, sg := range segs {
+				if len(sg) < 2 || len(sg) > 60 {
+					continue
+				}
+				var z [][]byte
+				for k, part := range sg {
+					z = append(z, part)
+					if k < len(sg)-1 && (len(sg) == 2 || r.chance(1, 3)) {
+						z = append(z, []byte{})
+					}
+				}
+				extra = append(extra, z)
+			}
+			segs = append(segs, extra...)
 		}
 		for _, sg := range segs {
 			got, gotW, gotE, pan, _ := finalOf(cs.Mode, cs.Grid, cs.W, cs.H, sg)
